@@ -1,14 +1,22 @@
 package verifh
 
-import "encoding/binary"
+import (
+	"encoding/binary"
+	"sort"
+)
 
-// Hand-crafted VP8L streams: pictures 1..12 pixels wide whose pixel data is a seeded
-// mix of literals and backward references with arbitrary 2-D distance codes and
-// lengths -- including the codes no encoder emits (reaching before the first pixel,
-// distance zero after the row-relative mapping on pictures narrower than 8 pixels,
-// copies that run past the end). The prefix codes are the smallest legal ones: green
-// has two symbols (literal 0 and one length prefix), red/blue/alpha one symbol each,
-// distance two symbols.
+// Hand-crafted VP8L streams. Random damage of encoder output almost never forms a
+// *well-formed* stream that uses a construct no encoder emits (a 2-D distance code
+// pointing right of the current column on a picture narrower than 8 pixels, a
+// colour-cache symbol before anything was inserted, a transform given twice, a
+// colour-indexing transform that packs a 3 px wide picture into one word, several
+// prefix-code groups selected by an entropy image ...). This writer produces such
+// streams directly: small pictures, the smallest legal prefix codes (1-3 symbols per
+// alphabet), a seeded mix of literals, colour-cache hits and backward references with
+// arbitrary distance codes and lengths, optional transforms with their sub-images, an
+// optional entropy image, streams that run out of bits. A good part of them is valid
+// and must decode; the rest must be rejected with an error -- never a panic, a hang or
+// an allocation out of proportion.
 
 type bitW struct {
 	buf []byte
@@ -17,6 +25,9 @@ type bitW struct {
 }
 
 func (b *bitW) put(v uint32, n uint) {
+	if n == 0 {
+		return
+	}
 	b.acc |= uint64(v&(1<<n-1)) << b.n
 	b.n += n
 	for b.n >= 8 {
@@ -33,6 +44,226 @@ func (b *bitW) bytes() []byte {
 	return b.buf
 }
 
+// craftCode is a prefix code over 1..3 symbols: lengths (1) | (1,1) | (1,2,2).
+type craftCode struct {
+	syms []int // ascending
+	code map[int][2]uint32
+}
+
+// putSym writes a symbol's code, most significant code bit first (the order in which a
+// VP8L decoder consumes it).
+func (b *bitW) putSym(c *craftCode, sym int) {
+	cl := c.code[sym]
+	for i := int(cl[1]) - 1; i >= 0; i-- {
+		b.put(cl[0]>>uint(i)&1, 1)
+	}
+}
+
+// writeCode emits the code's description for an alphabet of n symbols and returns it.
+// short: index (into the ascending symbol list) of the symbol with the 1-bit code when
+// there are three.
+func (b *bitW) writeCode(n int, syms []int, short int) *craftCode {
+	sort.Ints(syms)
+	c := &craftCode{syms: syms, code: map[int][2]uint32{}}
+	lens := make([]int, len(syms))
+	switch len(syms) {
+	case 1:
+		lens[0] = 0
+	case 2:
+		lens[0], lens[1] = 1, 1
+	default:
+		for i := range lens {
+			lens[i] = 2
+		}
+		lens[short] = 1
+	}
+	// canonical assignment: by (length, symbol)
+	next := uint32(0)
+	for l := 1; l <= 2; l++ {
+		for i, s := range syms {
+			if lens[i] == l {
+				c.code[s] = [2]uint32{next, uint32(l)}
+				next++
+			}
+		}
+		next <<= 1
+	}
+	if len(syms) == 1 {
+		c.code[syms[0]] = [2]uint32{0, 0}
+	}
+	if len(syms) <= 2 && syms[len(syms)-1] < 256 {
+		b.put(1, 1) // simple code
+		b.put(uint32(len(syms)-1), 1)
+		if syms[0] < 2 {
+			b.put(0, 1)
+			b.put(uint32(syms[0]), 1)
+		} else {
+			b.put(1, 1)
+			b.put(uint32(syms[0]), 8)
+		}
+		if len(syms) == 2 {
+			b.put(uint32(syms[1]), 8)
+		}
+		return c
+	}
+	// normal code; code-length code: symbols 0,1,2,18 with two bits each
+	b.put(0, 1)
+	b.put(1, 4) // 5 code-length code lengths, order 17, 18, 0, 1, 2
+	b.put(0, 3)
+	b.put(2, 3)
+	b.put(2, 3)
+	b.put(2, 3)
+	b.put(2, 3)
+	b.put(0, 1) // code lengths for the whole alphabet follow
+	emitCL := func(code uint32) { b.put(code>>1&1, 1); b.put(code&1, 1) }
+	zeros := func(z int) {
+		for z >= 11 {
+			k := z
+			if k > 138 {
+				k = 138
+			}
+			emitCL(3) // symbol 18
+			b.put(uint32(k-11), 7)
+			z -= k
+		}
+		for ; z > 0; z-- {
+			emitCL(0)
+		}
+	}
+	pos := 0
+	for i, s := range syms {
+		zeros(s - pos)
+		l := lens[i]
+		if l == 0 {
+			l = 1 // a lone symbol: one code of length 1
+		}
+		emitCL(uint32(l))
+		pos = s + 1
+	}
+	zeros(n - pos)
+	return c
+}
+
+type craftCodes struct {
+	green, red, blue, alpha, dist *craftCode
+	lits                          []int
+	lenSym, cacheSym              int
+}
+
+func pickDistinct(r *RNG, n, limit int) []int {
+	out := []int{}
+	for len(out) < n {
+		v := r.Intn(limit)
+		dup := false
+		for _, o := range out {
+			dup = dup || o == v
+		}
+		if !dup {
+			out = append(out, v)
+		}
+	}
+	return out
+}
+
+func (b *bitW) writeCodes(r *RNG, cacheBits int, refs bool) *craftCodes {
+	cc := &craftCodes{lenSym: -1, cacheSym: -1}
+	g := []int{r.Pick(0, 0, 255, r.Intn(256))}
+	cc.lits = []int{g[0]}
+	if refs {
+		cc.lenSym = 256 + r.Pick(0, 1, 2, 3, r.Intn(24), r.Intn(24))
+		g = append(g, cc.lenSym)
+	}
+	if cacheBits > 0 && r.Pct(70) {
+		cc.cacheSym = 280 + r.Intn(1<<cacheBits)
+		g = append(g, cc.cacheSym)
+	}
+	if len(g) < 3 && r.Pct(40) {
+		v := pickDistinct(r, 2, 256)
+		l := v[0]
+		if l == g[0] {
+			l = v[1]
+		}
+		g = append(g, l)
+		cc.lits = append(cc.lits, l)
+	}
+	n := 256 + 24
+	if cacheBits > 0 {
+		n += 1 << cacheBits
+	}
+	cc.green = b.writeCode(n, g, r.Intn(3))
+	cc.red = b.writeCode(256, pickDistinct(r, r.Range(1, 2), 256), 0)
+	cc.blue = b.writeCode(256, pickDistinct(r, r.Range(1, 2), 256), 0)
+	a := pickDistinct(r, r.Range(1, 2), 256)
+	if r.Bool() {
+		a = []int{255}
+	}
+	cc.alpha = b.writeCode(256, a, 0)
+	cc.dist = b.writeCode(40, pickDistinct(r, r.Range(1, 2), r.Pick(4, 14, 14, 40)), 0)
+	return cc
+}
+
+func prefixExtraBits(p int) uint {
+	if p < 4 {
+		return 0
+	}
+	return uint((p - 2) >> 1)
+}
+
+// writePixels emits w*h pixels' worth of symbols (or deliberately fewer / more).
+func (b *bitW) writePixels(r *RNG, cc *craftCodes, w, h int) {
+	total := w * h
+	if r.Pct(6) {
+		total = r.Intn(total + 1) // the stream runs out of bits
+	}
+	any := func(c *craftCode) { b.putSym(c, c.syms[r.Intn(len(c.syms))]) }
+	lit := r.Range(1, 6)
+	for done := 0; done < total; {
+		k := r.Intn(100)
+		switch {
+		case cc.lenSym >= 0 && done >= lit && k < 45:
+			b.putSym(cc.green, cc.lenSym)
+			p := cc.lenSym - 256
+			eb := prefixExtraBits(p)
+			ev := uint32(r.Next()) & (1<<eb - 1)
+			b.put(ev, eb)
+			length := p + 1
+			if p >= 4 {
+				length = (2+(p&1))<<eb + int(ev) + 1
+			}
+			d := cc.dist.syms[r.Intn(len(cc.dist.syms))]
+			b.putSym(cc.dist, d)
+			b.put(uint32(r.Next()), prefixExtraBits(d))
+			done += length
+		case cc.cacheSym >= 0 && k < 65:
+			b.putSym(cc.green, cc.cacheSym)
+			done++
+		default:
+			b.putSym(cc.green, cc.lits[r.Intn(len(cc.lits))])
+			any(cc.red)
+			any(cc.blue)
+			any(cc.alpha)
+			done++
+		}
+	}
+}
+
+// writeSubImage: an entropy-coded image without meta prefix codes (transform data,
+// entropy image, palette).
+func (b *bitW) writeSubImage(r *RNG, w, h int) {
+	cb := 0
+	if r.Pct(15) {
+		cb = r.Range(1, 11)
+		b.put(1, 1)
+		b.put(uint32(cb), 4)
+	} else {
+		b.put(0, 1)
+	}
+	cc := b.writeCodes(r, cb, r.Pct(12))
+	b.writePixels(r, cc, w, h)
+}
+
+func subSize(v, bits int) int { return (v + 1<<bits - 1) >> bits }
+
 func craftVP8L(r *RNG) []byte {
 	w, h := r.Range(1, 12), r.Range(1, 12)
 	if r.Pct(50) {
@@ -44,72 +275,71 @@ func craftVP8L(r *RNG) []byte {
 	b.put(uint32(h-1), 14)
 	b.put(uint32(r.Intn(2)), 1) // alpha_is_used
 	b.put(0, 3)                 // version
-	b.put(0, 1)                 // no transform
-	b.put(0, 1)                 // no colour cache
-	b.put(0, 1)                 // no meta prefix codes
-	// green: code lengths {0:1, L:1}, written with a code-length code {1:1 bit, 18:1 bit}
-	L := 256 + r.Intn(4)
-	b.put(0, 1)     // normal code
-	b.put(0, 4)     // 4 code-length code lengths: order 17, 18, 0, 1
-	b.put(0, 3)     // 17
-	b.put(1, 3)     // 18
-	b.put(0, 3)     // 0
-	b.put(1, 3)     // 1
-	b.put(1, 1)     // max_symbol given
-	b.put(0, 3)     // length_nbits = 2
-	b.put(2, 2)     // max_symbol = 4 tokens
-	b.put(0, 1)     // token "1": symbol 0 has length 1
-	b.put(1, 1)     // token 18
-	b.put(127, 7)   // 138 zeros
-	b.put(1, 1)     // token 18
-	b.put(uint32(L-1-138-11), 7)
-	b.put(0, 1) // token "1": symbol L has length 1
-	single := func(sym int) {
-		b.put(1, 1) // simple code
-		b.put(0, 1) // one symbol
-		b.put(1, 1) // 8-bit symbol
-		b.put(uint32(sym), 8)
-	}
-	single(r.Intn(256)) // red
-	single(r.Intn(256)) // blue
-	single(r.Pick(255, 255, 0, r.Intn(256)))
-	// distance: two symbols
-	s0 := r.Intn(13)
-	s1 := s0 + 1 + r.Intn(14-s0-1+1)
-	if s1 > 14 {
-		s1 = 14
-	}
-	if s1 == s0 {
-		s1 = s0 + 1
-	}
-	b.put(1, 1)
-	b.put(1, 1) // two symbols
-	b.put(1, 1) // 8-bit first symbol
-	b.put(uint32(s0), 8)
-	b.put(uint32(s1), 8)
-	// pixel data
-	n := w*h + r.Intn(4)
-	if r.Pct(10) {
-		n = r.Intn(w*h + 1) // runs out of bits
-	}
-	lit := r.Range(1, 6)
-	for i := 0; i < n; i++ {
-		if i < lit || r.Pct(40) {
-			b.put(0, 1)
-			continue
+	used := map[int]bool{}
+	nt := r.Pick(0, 0, 0, 1, 1, 2, 3)
+	for i := 0; i < nt; i++ {
+		t := r.Intn(4)
+		if used[t] && !r.Pct(8) {
+			continue // the same transform twice: only now and then
 		}
+		used[t] = true
 		b.put(1, 1)
-		s := s0
-		if r.Bool() {
-			b.put(1, 1)
-			s = s1
-		} else {
-			b.put(0, 1)
-		}
-		if s >= 4 {
-			b.put(uint32(r.Next()), uint((s-2)>>1))
+		b.put(uint32(t), 2)
+		switch t {
+		case 0, 1:
+			bits := r.Range(2, 9)
+			b.put(uint32(bits-2), 3)
+			b.writeSubImage(r, subSize(w, bits), subSize(h, bits))
+		case 3:
+			n := r.Pick(1, 2, 3, 4, 5, 16, 17, 256, r.Range(1, 256))
+			b.put(uint32(n-1), 8)
+			b.writeSubImage(r, n, 1)
+			switch {
+			case n <= 2:
+				w = subSize(w, 3)
+			case n <= 4:
+				w = subSize(w, 2)
+			case n <= 16:
+				w = subSize(w, 1)
+			}
 		}
 	}
+	b.put(0, 1) // no more transforms
+	cb := 0
+	if r.Pct(30) {
+		cb = r.Range(1, 11)
+		b.put(1, 1)
+		b.put(uint32(cb), 4)
+	} else {
+		b.put(0, 1)
+	}
+	groups := 1
+	if r.Pct(15) {
+		// entropy image: every pixel selects the same group (red<<8 | green of the
+		// sub-image's only literal), so the number of groups is that index + 1; all
+		// groups carry the same codes
+		b.put(1, 1)
+		bits := r.Range(2, 9)
+		b.put(uint32(bits-2), 3)
+		gi := r.Intn(3)
+		b.put(0, 1) // no colour cache in the entropy image
+		sw, sh := subSize(w, bits), subSize(h, bits)
+		b.writeCode(280, []int{gi}, 0) // green: the group index
+		b.writeCode(256, []int{0}, 0)  // red
+		b.writeCode(256, []int{r.Intn(256)}, 0)
+		b.writeCode(256, []int{r.Intn(256)}, 0)
+		b.writeCode(40, []int{0}, 0)
+		_ = sw * sh // every symbol has a zero-length code: the pixels take no bits
+		groups = gi + 1
+	} else {
+		b.put(0, 1)
+	}
+	gseed := r.Next()
+	var cc *craftCodes
+	for g := 0; g < groups; g++ {
+		cc = b.writeCodes(NewRNG(gseed), cb, true)
+	}
+	b.writePixels(r, cc, w, h)
 	b.put(0, 8)
 	payload := b.bytes()
 	if len(payload)%2 == 1 {
